@@ -420,7 +420,15 @@ class Machine:
                 exact = f(a.v, b.v); r = Int(w, s, exact)
                 return Agg('tuple', 0, [r, r.v != exact])
             ext = z3.SignExt if s else z3.ZeroExt
-            ex = f(ext(w, x), ext(w, y)); r = f(x, y)
+            r = f(x, y)
+            if op[0] == 'M':
+                # z3's built-in multiplication-overflow predicates (a dedicated encoding; the 2w-bit product formulation does not
+                # terminate in useful time for w = 64)
+                x, y = z3.simplify(x) if not isinstance(x, int) else x, z3.simplify(y) if not isinstance(y, int) else y
+                xz = x if not isinstance(x, int) else z3.BitVecVal(x, w); yz = y if not isinstance(y, int) else z3.BitVecVal(y, w)
+                no = z3.And(z3.BVMulNoOverflow(xz, yz, s), z3.BVMulNoUnderflow(xz, yz)) if s else z3.BVMulNoOverflow(xz, yz, False)
+                return Agg('tuple', 0, [Int(w, s, r), z3.Not(no)])
+            ex = f(ext(w, x), ext(w, y))
             return Agg('tuple', 0, [Int(w, s, r), ext(w, r) != ex])
         if op in ('Eq', 'Ne', 'Lt', 'Le', 'Gt', 'Ge'):
             if conc:
